@@ -170,7 +170,11 @@ def verdict_pass(rep, bins, behaviours, replay_file, first, T):
             rep.known[key] = rep.known.get(key, 0) + 1
             continue
         b = byid[tid]
-        if not replay_file:
+        nviol = len(rep.violations)
+        if nviol >= 25:
+            rep.cov["failing_behaviours"] = rep.cov.get("failing_behaviours", 25) + 1
+            continue
+        if not replay_file and nviol < 3:
             again = replay(bins, [b])
             r2 = validate([again[0][0]])[0]
             C.tlc_ok(r2, "StatusTrace re-run")
